@@ -277,7 +277,7 @@ def run_property(mod, tier, seed, jobs=16, only=None):
                     with open(hang) as fh:
                         case = json.load(fh)
                     res = {"shard": shard.name, "status": "violation", "violations": [
-                        {"bucket": f"{prop}/{shard.name}/non-termination",
+                        {"bucket": f"{prop}/{re.sub(r'-[0-9]+$', '', shard.name)}/non-termination",
                          "detail": f"case does not terminate within {ISOLATED_LIMIT_S}s",
                          "case": case}]}
             else:
@@ -346,6 +346,14 @@ def finish(mod, tier, seed, results, known_hit, wall):
     for k in known_hit.values():
         print(f"KNOWN-FINDING: property={prop} {k['what']}")
     all_exhaustive = bool(results) and all(r.get("exhaustive") for r in results)
+    scope = getattr(mod, "EXHAUSTIVE_SCOPE", None)
+    scope_note = None
+    if scope and not all_exhaustive:
+        # the property's own finite quantifier space is enumerated completely by the shards with this
+        # prefix; further (sampled) shards only add variations on top of it
+        prefix, scope_note = scope
+        inside = [r for r in results if r["shard"].startswith(prefix)]
+        all_exhaustive = bool(inside) and all(r.get("exhaustive") and r["status"] == "ok" for r in inside)
     evidence = {
         "property_id": prop,
         "tier": tier,
@@ -357,6 +365,7 @@ def finish(mod, tier, seed, results, known_hit, wall):
             "rule": mod.RULE,
             "samples": samples,
             "exhaustive": all_exhaustive,
+            **({"exhaustive_scope": scope_note} if scope_note else {}),
             "class_distribution": dict(sorted(labels.items())),
             "shards": {r["shard"]: {"evaluations": r.get("evaluations", 0),
                                     "nontrivial": len(r.get("nontrivial", [])),
